@@ -8,6 +8,7 @@
   ZERO-GUARD  Divide, Modulo and DivideFloat are preceded by `rhs == 0 => Err(Exception)`; Exponent by `rhs < 0 => Err`.
   ERROR-RESTORE every error exit of the arithmetic helpers hands back exactly the operands it popped, in push order (C07's
               RESTORE-SEQ restricted to eval_int_binop / eval_float_binop / eval_assign_update).
+  UPDATE-ORDER x += e reads x before evaluating e, as x = x + e does (today it does not: known finding).
   SIBLING     x += e / x -= e use the same operation as + / -.
   OPERAND-ORDER the second value popped is the left operand; eval_expr schedules rhs before lhs (LIFO) so lhs is evaluated first.
 """
@@ -306,6 +307,21 @@ def run(ctx, res):
         res.bad("SIBLING", "eval::eval_assign_update # store differs",
                 "`x += e` does not store the variable the way `x = e` does (eval_assign uses %s, eval_assign_update uses %s): with a shadowed name the two "
                 "forms update different bindings" % (sorted(wa), sorted(wu)), eu.loc())
+    # UPDATE-ORDER: `x = x + e` reads x before it evaluates e (the left operand is evaluated first); `x += e` agrees only if it
+    # reads x before e runs too. Today the variable is read in the step that runs after e has been evaluated.
+    reads_late = any((M.callee_name(t_) or "") in ("eval::get_var",) or (M.callee_name(t_) or "").endswith("Bindings::get") for _, t_ in eu.calls())
+    arm_reads_first = False
+    evx = P_.require_fn("eval::eval_expr")
+    for bi_, t_ in evx.calls():
+        n_ = M.callee_name(t_) or ""
+        if (n_ == "eval::get_var" or n_.endswith("Bindings::get")) and "AssignUpdate" in D.arm_label(evx, bi_, enums={"Expression_"}):
+            arm_reads_first = True
+    if reads_late and not arm_reads_first:
+        res.bad("UPDATE-ORDER", "eval::eval_assign_update # reads the variable after its right-hand side",
+                "`x += e` reads x only after e has been evaluated, `x = x + e` reads it before: when e assigns x the two differ "
+                "(`x += if True { x = 10 5 } else { 0 }` gives 15 from x = 1, the long form gives 6)", eu.loc())
+    else:
+        res.ok("UPDATE-ORDER", "the variable of `x += e` is read before e is evaluated")
     stale = [k for k in table if k not in used]
     for k in stale:
         res.note("stale interval-table row (site no longer present): %s" % k)
